@@ -1,7 +1,7 @@
 (* Proofs/SideC03.v — side conditions tying Model/Auth.v to the values regenerated from /repo (Gen/C03.v):
    re-proved for the current values on every run. *)
 From TX Require Import Model.Auth Gen.C03.
-From Coq Require Import ZArith ZifyN ZifyNat ZifyBool Lia.
+From Coq Require Import List ZArith ZifyN ZifyNat ZifyBool Lia.
 Open Scope N_scope.
 
 (* the brute-force thresholds are positive and the temporary ban comes first *)
@@ -31,6 +31,6 @@ Qed.
    keeps the zone; repaired by fixes/C03-extractip-keeps-zone.diff, after which that row is plain as well). *)
 Lemma extract_ip_drops_port_and_zone :
   length extract_table = 13%nat /\
-  forallb (fun r => let '(_, _, typed, zoned, plain) := r in plain || (negb typed && zoned)) extract_table = true.
+  forallb (fun r => let '(_, _, typed, zoned, plain) := r in orb plain (andb (negb typed) zoned)) extract_table = true.
 Proof. split; vm_compute; reflexivity. Qed.
 Close Scope N_scope.
